@@ -206,7 +206,7 @@ class Gen:
         name = "%sf%d" % (self.prefix, self.nfn)
         self.nfn += 1
         susp = ()
-        if fl not in ("def", "cls_async_call"):
+        if fl not in ("def", "cls_async_call", "def_wraps_async"):
             susp = self.suspend_plan(3)
         return FnPlan(name, kind, param, fl, susp)
 
@@ -514,10 +514,30 @@ class _Cycle(ToolBase):
     infinite = True
 
     def gen(self, g):
-        return Spec("cycle", [g.src(g.sprinkle(g.items()))], [], {})
+        return Spec("cycle", [g.src(g.sprinkle(g.items()))], [], {"mutate": g.ch.chance(1, 3)})
 
     def a(self, L, spec, S, F):
-        return L.cycle(S[0])
+        src = S[0]
+        if spec.p.get("mutate") and type(src) is list and src:
+            # the caller changes its list after the first pass: cycle replays what it saved (like itertools.cycle,
+            # whose twin here iterates a one-shot iterator and cannot see the change either)
+            n0 = len(src)
+
+            async def driver():
+                it = L.cycle(src)
+                n = 0
+                try:
+                    async for item in it:
+                        yield item
+                        n += 1
+                        if n == n0 + 1:
+                            # (the first replayed item is out: the list's own iterator has certainly reported its end)
+                            src.append(Item(0, ("appended-after-the-first-pass",)))
+                finally:
+                    await it.aclose()
+
+            return driver()
+        return L.cycle(src)
 
     def r(self, spec, S, F):
         return itertools.cycle(S[0])
